@@ -16,6 +16,28 @@ def setup_reals_mode() -> None:
     assert hasattr(StateSpace, "cap_result_at_unknown"), "crosshair internals changed"
     bl._PYTYPE_TO_WRAPPER_TYPE[float] = ((bl.RealBasedSymbolicFloat, 1.0),)
     StateSpace.cap_result_at_unknown = lambda self: None  # type: ignore[method-assign]
+    # int(<symbolic float>) realises its argument in crosshair 0.0.110 (one path per concrete value: measured as the source of
+    # path explosion at Project.dateToIdx for every dependency bound); use the symbolic truncation the same class already
+    # defines as __int__ (z3: If(x >= 0, ToInt(x), -ToInt(-x)))
+    import crosshair.core as core
+    from crosshair.tracers import NoTracing
+
+    assert int in core._PATCH_REGISTRATIONS, "crosshair internals changed"
+    orig_int = core._PATCH_REGISTRATIONS[int]
+    if not getattr(orig_int, "_verif_patched", False):
+        _MISSING = object()
+
+        def _int(val: Any = 0, base: Any = _MISSING) -> Any:
+            # everything runs under NoTracing: the original ends in a plain int(val), which must not be intercepted again
+            with NoTracing():
+                if base is _MISSING:
+                    if isinstance(val, bl.RealBasedSymbolicFloat):
+                        return val.__int__()
+                    return orig_int(val)
+                return orig_int(val, base)
+
+        _int._verif_patched = True  # type: ignore[attr-defined]
+        core._PATCH_REGISTRATIONS[int] = _int
 
 
 def analyze(fn: Callable, cond_timeout: float, path_timeout: float = 60.0) -> dict:
